@@ -15,7 +15,8 @@ from harness.common import Check, Driver, canon
 from harness.gen import exprs as E
 from harness.gen import single as S
 from harness.lib import duck
-from harness.props import c01
+from harness.gen import multi as M
+from harness.props import c01, c02
 
 
 def gen_segments(rng, m):
@@ -124,15 +125,56 @@ def run(ck: Check):
         c01.directed_search(ck, [c for c in cases if c.get("_mismatch")], stats)
     if stats["disagree"] == 0:
         ck.obligation("correspondence C04: SQLGenerator vs genSingle on filter/segment cases (structural + behavioural)", True, f"{len(cases)} cases agree")
+    # filters on joined models: LEFT→INNER switch, pushdown into the joined model's CTE (multi-model generator model)
+    jcases, jreals = [], []
+    jstats = Counter()
+    for i in range(300 if thorough else 30):
+        ms, tables = M.gen_forest(rng)
+        layer = M.build_layer(ms, tables)
+        for _ in range(2):
+            q = M.gen_query(rng, ms)
+            pool = [(m["name"], d["name"]) for m in ms for d in m["dims"]]
+            q["filters"] = []
+            for _ in range(rng.choice([1, 2, 3])):
+                a, b = rng.choice(pool)
+                dom = ["s1", "s2", "s3"] if b in ("sku", "dept") else ["a", "b", "c"]
+                q["filters"].append(rng.choice([E.bin_("eq", E.col(f"{a}.{b}"), E.lit(rng.choice(dom))), E.in_(E.col(f"{a}.{b}"), rng.sample(dom, 2)),
+                                                E.bin_("ne", E.col(f"{a}.{b}"), E.lit(rng.choice(dom))), E.isnull(E.col(f"{a}.{b}"), neg=True)]))
+            r = M.run_real(layer, q)
+            jreals.append(r)
+            c = {"op": "c02", "models": M.lean_models(ms), "query": q, "tables": tables, "_ms": ms, "_meta": dict(M.GEN_META)}
+            jcases.append(c)
+            if r["outcome"] == "ok" and not c02.classify(c) and len(q["filters"]) >= 2:
+                base_rows = c01.canon_rows(r["rows"], [False] * len(r["columns"]))
+                conj = q["filters"][0]
+                for f in q["filters"][1:]:
+                    conj = E.bin_("and", conj, f)
+                perm = q["filters"][:]
+                rng.shuffle(perm)
+                for name, q2 in (("one conjunction", dict(q, filters=[conj])), ("permuted filters", dict(q, filters=perm))):
+                    # the base model is the first model referenced: a variant that changes it is a different query shape
+                    if c02.classify({**c, "query": q2}):
+                        continue
+                    r2 = M.run_real(layer, q2)
+                    stats["variants"] += 1
+                    if r2["outcome"] != "ok" or not c01.bag_equal(base_rows, c01.canon_rows(r2["rows"], [False] * len(r2["columns"]))):
+                        ck.fail_input(f"the same joined query with {name} returns different rows", {"models": c["models"], "tables": tables, "query": q, "variant": q2,
+                                      "rows": duck.show(r["rows"]), "variant_rows": duck.show(r2.get("rows") or []), "variant_error": r2.get("error")})
+    jdis = c02.evaluate(ck, jcases, jreals, jstats, label="C04 (joined filters)")
+    if jdis and not ck.failing:
+        c02.directed_search(ck, [c for c in jcases if c.get("_mismatch")], jstats)
+    if jdis == 0:
+        ck.obligation("correspondence C04: SQLGenerator vs genJoin on filters over joined models (structural + behavioural)", True, f"{len(jcases)} cases")
+    stats["joined_cases"] = len(jcases)
     forms = Counter(f["k"] if f["k"] != "bin" else f["op"] for c in cases for f in c["query"]["filters"])
     ck.coverage.update({
-        "evaluations": len(cases) + stats["variants"] + stats["locality"], "distinct_nontrivial": len(stats["nontrivial"]),
+        "evaluations": len(cases) + stats["variants"] + stats["locality"] + stats["joined_cases"], "joined_filter_cases": stats["joined_cases"], "joined_stats": dict(jstats), "distinct_nontrivial": len(stats["nontrivial"]),
         "rule": "random single-model definitions with 0-2 segments (with/without {model}) and metric-level filters x tables x queries with 1-4 filters (comparisons, IN, BETWEEN, LIKE, IS [NOT] NULL, NOT, parenthesised OR, AND, hostile literals, metric-value filters); each query also run as one conjunction / permuted / segments-as-predicates / without a filtered companion metric",
         "filter_forms": dict(forms), "variant_queries": stats["variants"], "locality_queries": stats["locality"],
         "outcome_distribution": dict(stats["outcomes"]), "cases_inside_theorem_C01_grouped": stats.get("covered", 0),
         "traces_validated_against_impl": len(cases), "samples": [c01.strip(cases[0]), c01.strip(cases[-1])],
     })
-    ck.assumptions += ["filters on joined models (LEFT→INNER switch, semi-join restriction) are the subject of C02/C03 and are not covered here",
+    ck.assumptions += ["filters on joined models (LEFT→INNER switch, pushdown into the joined CTE) are tied through the multi-model generator model genJoin and the distinct-row oracle of C02; no separate Lean theorem states the semi-join restriction",
                        "the character-level quote-splitting loop of _build_main_select is abstracted by the AST model; hostile literals are exercised by the correspondence"]
 
 
